@@ -65,7 +65,19 @@ pub fn gen_name(src: &mut Src) -> String {
     s
 }
 /// A decimal with <= 9 integer and <= 6 fractional digits
+thread_local! {
+    /// whole numbers beyond 64 bits among the generated numbers (switched on by the checks of the LEF reader/writer)
+    static BIG_NUMBERS: std::cell::Cell<bool> = const { std::cell::Cell::new(false) };
+}
+pub fn set_big_numbers(on: bool) {
+    BIG_NUMBERS.with(|c| c.set(on));
+}
 pub fn gen_dec(src: &mut Src) -> LefDecimal {
+    if BIG_NUMBERS.with(|c| c.get()) && src.prob(1, 80) {
+        // the ends of the 64-bit range, their outer neighbours, and beyond (every LEF number is a 96-bit decimal)
+        let v: i128 = *src.pick(&[i64::MAX as i128, i64::MIN as i128, i64::MAX as i128 + 1, i64::MIN as i128 - 1, 100_000_000_000_000_000_000, 1i128 << 70, -(1i128 << 70), u64::MAX as i128]);
+        return LefDecimal::from_i128_with_scale(v, 0);
+    }
     let scale = src.weighted(&[3, 2, 2, 2, 1, 1, 1]) as u32;
     let m = match src.weighted(&[5, 3, 1, 2]) {
         0 => src.signed(5000),
@@ -85,7 +97,13 @@ pub fn gen_pt(src: &mut Src) -> LefPoint {
 }
 fn gen_mask(src: &mut Src) -> Option<LefMask> {
     if src.prob(1, 4) {
-        Some(LefMask::new(LefDecimal::new(src.i64_in(1, 3), 0)))
+        // (a whole number, now and then written with decimals: 2.0, 1.00)
+        let k = src.i64_in(1, 3);
+        Some(LefMask::new(match src.below(6) {
+            0 => LefDecimal::new(k * 10, 1),
+            1 => LefDecimal::new(k * 100, 2),
+            _ => LefDecimal::new(k, 0),
+        }))
     } else {
         None
     }
@@ -350,7 +368,12 @@ fn gen_propdef(src: &mut Src) -> LefPropertyDefinition {
     match src.below(3) {
         0 => LefPropertyDefinition::LefString(ot, name, opt(src, 1, 2, gen_string_literal)),
         k => {
-            let range = opt(src, 1, 2, |s| LefPropertyRange { begin: gen_dec(s), end: gen_dec(s) });
+            // (the bounds come in any order, and one time in five they are the same number: a one-value range)
+            let range = opt(src, 1, 2, |s| {
+                let begin = gen_dec(s);
+                let end = if s.prob(1, 5) { begin } else { gen_dec(s) };
+                LefPropertyRange { begin, end }
+            });
             let value = opt(src, 1, 2, gen_dec);
             if k == 1 {
                 LefPropertyDefinition::LefReal(ot, name, value, range)
